@@ -55,8 +55,8 @@ class Beta(Distribution):
 
     def cdf(self, x):
 
-        # Check bounds
-        if np.any(x<=0) or np.any(x>=1) or np.any(self.alpha<=0) or np.any(self.beta<=0):
+        # Check parameters (scipy returns 0 below and 1 above the support for each component)
+        if np.any(self.alpha<=0) or np.any(self.beta<=0):
             return 0
 
         # Compute logpdf
